@@ -1415,7 +1415,9 @@ def sliding_window_view(x, window_shape, axis=None, automatic_rechunk=True):
 
     # Ensure that each chunk is big enough to leave at least a size-1 chunk
     # after windowing (this is only really necessary for the last chunk).
-    safe_chunks = list(ensure_minimum_chunksize(d + 1, c) for d, c in zip(depths, x.chunks))
+    # An axis that is not windowed keeps its chunks as they are -- also when
+    # it is empty, which no minimum chunk size can be enforced on.
+    safe_chunks = list(ensure_minimum_chunksize(d + 1, c) if d else c for d, c in zip(depths, x.chunks))
     if automatic_rechunk:
         safe_chunks = [s if d != 0 else c for d, c, s in zip(depths, x.chunks, safe_chunks)]
         # safe chunks is our output chunks, so add the new dimensions
